@@ -38,7 +38,7 @@ package kernel
 //@   property C19
 //@   requires RoundOK(c) && s != nil && s.Timestamp < 9223372036854775808 && s.Version == common.SnapshotVersionCommonEncoding
 //@   panics when s.RoundNumber != c.Number || !s.Hash.HasValue()
-//@   modifies c.Snapshots, c.Snapshots[..]
+//@   modifies c.Snapshots, c.Snapshots[..cap]
 //@   ensures [added] result == nil && add ==> RoundOK(c) && len(c.Snapshots) == old(len(c.Snapshots)) + 1 && c.Snapshots[len(c.Snapshots)-1] == s
 //@   ensures [kept] (result != nil || !add) ==> RoundOK(c) && len(c.Snapshots) == old(len(c.Snapshots))
 //@   hint after Gap [gapcompat] forall k int :: 0 <= k && k < len(c.Snapshots) ==> Compatible(c.Snapshots[k], s)
